@@ -756,10 +756,10 @@ pub fn generate(name: &str, rng: &mut Rng, n: usize, tier: &str) -> Vec<String> 
                 out.push(g.line(&format!("l{i}"), limit));
             }
         }
-        "alloc_small" => {
-            // exhaustive: every byte string up to 2 (quick) / 3 (thorough) bytes through
-            // fits_in_small_atom, new_atom + readers, and (≤ 2 bytes) every substring
-            let maxlen = if tier == "thorough" { 3 } else { 2 };
+        "alloc_small" | "alloc_sub2" => {
+            // exhaustive: every byte string up to 2 (quick, and `alloc_sub2` in both tiers) / 3 (thorough)
+            // bytes through fits_in_small_atom, new_atom + readers, and (≤ 2 bytes) every substring
+            let maxlen = if tier == "thorough" && name == "alloc_small" { 3 } else { 2 };
             let mut id = 0;
             let mut cur: Vec<Op> = vec![];
             let mut strings = 0;
